@@ -134,7 +134,6 @@ def valOf (p : Path) : Node → Val
   | .leaf v => v
   | .ptr none => .nilptr
   | .iface none => .nilptr
-  | .iface (some (.leaf v)) => v
   | .iface (some (.ptr none)) => .nilptr
   | _ => .ref p
 
@@ -311,7 +310,13 @@ def assignCell (cells : SetCells) (cur : Node) (new : Val) : R Node :=
       | _ => if c.ty == new.ty && c.ty != .other then .ok (.leaf new)
              else if c == .invalid then unmodelled "untyped cell"
              else evalErr "recovered : value is not assignable"
-  | .iface _ =>
+  | .iface cur' =>
+    -- IsPointerToNumber(fieldVal) looks through the interface: SetNumberValue(fieldVal.Elem(), …) then
+    -- panics (the element of an interface is not addressable); recovered by the setter's defer
+    let holdsNumber := match cur' with
+      | some (.leaf c) => c.isNumber
+      | _ => false
+    if holdsNumber && new.isNumber then evalErr "recovered : reflect.Value.SetInt using unaddressable value" else
     match new with
     | .invalid => evalErr "recovered : reflect: call of reflect.Value.Set on zero Value"
     | .nilptr => unmodelled "assigning nil pointer"
